@@ -16,6 +16,45 @@ SERVICE_ALGOS = {'grid': 'GRID_SEARCH', 'sgrid': 'SHUFFLED_GRID_SEARCH', 'quasi'
 SERVICE_SPACE = {'int10': 'int10', 'mixed': 'mixed', 'f2': 'f2', 'small': None, 'f3log': None, 'cat2': None, 'sibA': None, 'sibB': None}
 
 
+def child_main(path):
+  """Another server process: restores a designer from a dump made elsewhere and makes one suggestion batch."""
+  import json  # pylint: disable=g-import-not-at-top
+  doc = json.load(open(path))
+  prob = twin.problem(doc['space'], doc.get('metrics', 1))
+  clk = simclock.SimClock(epoch=doc['epoch'])
+  with simclock.installed(clk, simclock.Entropy(doc['seed'])):
+    d = twin.make(doc['designer'], prob, doc['seed'] + 1000)
+    md = vz.Metadata()
+    for ns, k, v in doc['md']:
+      md.abs_ns(vz.Namespace(tuple(ns)))[k] = v
+    d.load(md)
+    out = [repr(twin.pkey(s)) for s in d.suggest(doc['count'])]
+  print('C13CHILD ' + json.dumps(out))
+  return 0
+
+
+def _restart_in_another_process(plan, md, count, step):
+  import json, os, subprocess, sys, tempfile  # pylint: disable=g-import-not-at-top,multiple-imports
+  from simkit import boot  # pylint: disable=g-import-not-at-top
+  items = [[list(ns), k, v] for ns, k, v in md.all_items() if isinstance(v, str)]
+  fd, path = tempfile.mkstemp(prefix='c13-', suffix='.json')
+  try:
+    with os.fdopen(fd, 'w') as f:
+      json.dump({'designer': plan['designer'], 'space': plan['space'], 'metrics': plan.get('metrics', 1),
+                 'seed': plan['seed'], 'epoch': plan['epoch'] + 1000.0 * step, 'md': items, 'count': count}, f)
+    env = dict(os.environ)
+    env.pop('_VERIF_PINNED', None)
+    env['VERIF_HASHSEED'] = str(plan.get('hashseed', 4242))
+    p = subprocess.run([sys.executable, os.path.join(boot.VERIF_ROOT, 'vcheck'), 'c13-child', path],
+                       capture_output=True, text=True, env=env, timeout=300)
+    for line in p.stdout.splitlines():
+      if line.startswith('C13CHILD '):
+        return json.loads(line[len('C13CHILD '):])
+    return None
+  finally:
+    os.unlink(path)
+
+
 class C13(runner.Check):
   prop = 'C13'
   level = 'fault_enumeration'
@@ -44,7 +83,7 @@ class C13(runner.Check):
             'probe.cmaes-generation-boundary', 'probe.infeasible-trial-fed', 'probe.depth.direct',
             'probe.depth.policy', 'probe.depth.service', 'probe.grid-fully-covered', 'probe.exhaustive-subsets', 'probe.out-of-order-completions',
             'probe.suggest-without-new-completions', 'probe.update-refused-by-both',
-            'probe.prior-life-of-the-study-name', 'probe.infinite-objective-fed', 'probe.nsga2-offspring-lineage-compared', 'probe.eagle-pool-shrank-after-being-full']
+            'probe.prior-life-of-the-study-name', 'probe.infinite-objective-fed', 'probe.nsga2-offspring-lineage-compared', 'probe.eagle-pool-shrank-after-being-full', 'fault.designer-restart-in-another-process']
 
   def gen(self, rng, idx, tier):
     depth = rng.choice(['direct'] * 5 + ['policy'] * 3 + ['service'] * 2)
@@ -89,6 +128,11 @@ class C13(runner.Check):
       exhaustive = False
     return {'designer': name, 'space': space, 'seed': seed, 'depth': depth,
             'marathon': marathon,
+            # a sample of direct-depth plans also restores the dump in ANOTHER interpreter (other hash seed):
+            # what a real server restart is
+            'xproc': (depth == 'direct' and name in twin.DETERMINISTIC_DUMP and not marathon
+                      and rng.random() < (0.025 if tier == 'quick' else 0.08)),
+            'hashseed': rng.choice([1, 9, 4242, 123456]),
             'order': 'in-order' if marathon else rng.choice(['in-order', 'in-order', 'reversed', 'shuffled', 'shuffled', 'delayed']),
             'order_seed': rng.randrange(10**6),
             # per step: 0 = every trial of the step is completed before the next suggest, 1 = one is left
@@ -130,6 +174,8 @@ class C13(runner.Check):
       yield dict(plan, infeasible_mod=0)
     if plan.get('inf_mod'):
       yield dict(plan, inf_mod=0)
+    if plan.get('xproc'):
+      yield dict(plan, xproc=False)
     if plan.get('prior_life', 0) > 1:
       yield dict(plan, prior_life=1)
     if any(plan.get('hold') or []):
@@ -190,10 +236,15 @@ class C13(runner.Check):
       tid = 0
       carry = []
       pool_was_full = False
+      xproc_expect = False
       for step, count in enumerate(plan['batches']):
         clk.advance(plan['advance'][step])
         if step in restarts:
           md = B.dump()
+          if plan.get('xproc') and step == max(restarts):
+            other = _restart_in_another_process(plan, md, count, step)
+            res.bump('fault.designer-restart-in-another-process')
+            xproc_expect = other
           B = twin.make(name, prob, seed + 1000)
           B.load(md)
           res.bump('fault.designer-restart')
@@ -204,6 +255,12 @@ class C13(runner.Check):
         mb = B.verif_mutation.calls if name == 'nsga2' else 0
         sa = A.suggest(count)
         sb = B.suggest(count)
+        if xproc_expect is not False:
+          got_other, xproc_expect = xproc_expect, False
+          if got_other is None or got_other != [repr(twin.pkey(s)) for s in sa]:
+            viol.append(('suggestions-differ-after-restart-in-another-process',
+                         f'step {step}: live {[repr(twin.pkey(s)) for s in sa][:2]}, instance restored in a fresh interpreter (PYTHONHASHSEED={plan.get("hashseed")}) {str(got_other)[:200]}'))
+            break
         if name in twin.DETERMINISTIC_DUMP:
           if [twin.pkey(s) for s in sa] != [twin.pkey(s) for s in sb]:
             viol.append(('suggestions-differ-after-restart', f'step {step}: live {[twin.pkey(s) for s in sa][:2]} restarted {[twin.pkey(s) for s in sb][:2]}'))
